@@ -6,6 +6,7 @@ booted state machine.  Monitor at the socket ``send`` seam.
 """
 import io
 import os
+import re
 
 from rigsim import wire
 from rigsim.seams import rig_module
@@ -179,7 +180,7 @@ class BootEngine(object):
             w.violate("B", "reassembled image differs from the boot image at "
                       "byte %d" % i, kind="image-bytes")
         # configuration area
-        sv = self.sv
+        sv = self.sv_cur
         ov = dict(options)
         ov["root_chip"] = 1
         got = out[384:512]
@@ -336,9 +337,44 @@ class BootEngine(object):
                 nz = min([4, 100, 1024, 1500, 3072, 8192][t.draw(6)],
                          size - 512)
                 image = image[:size - nz] + bytes(nz)
-            name = "/sim/boot%d.bin" % len(self.files)
+            if self.image_paths and t.draw(3) == 0:
+                # the image was rebuilt in place: a path an earlier boot of
+                # this process already used, with other contents now
+                w.probe("image_path_reused")
+                name = self.image_paths[t.draw(len(self.image_paths))]
+            else:
+                name = "/sim/boot%d.bin" % len(self.files)
+                self.image_paths.append(name)
             self.files[name] = image
             kwargs["scamp_binary"] = name
+        # struct file: the bundled one, or the caller's own (the bundled text
+        # with other defaults for a few system variables), which may also have
+        # been edited in place since an earlier boot
+        self.sv_cur = self.sv
+        if t.draw(4) == 0:
+            w.probe("own_struct_file")
+            text = self.struct_text
+            for _ in range(1 + t.draw(3)):
+                fname, val = [("cpu_clk", 100 + t.draw(200)),
+                              ("mem_clk", 100 + t.draw(200)),
+                              ("led_period", t.draw(256)),
+                              ("netinit_bc_wait", t.draw(256)),
+                              ("p2p_root", t.draw(65536)),
+                              ("num_buf", t.draw(256)),
+                              ("root_chip", t.draw(2))][t.draw(7)]
+                text = re.sub((r"(?m)^(%s\s+\S+\s+\S+\s+\S+\s+)\S+"
+                               % fname).encode(),
+                              lambda mo: mo.group(1) + str(val).encode(),
+                              text)
+            if self.struct_paths and t.draw(2) == 0:
+                w.probe("struct_path_reused")
+                sname = self.struct_paths[t.draw(len(self.struct_paths))]
+            else:
+                sname = "/sim/sark%d.struct" % len(self.files)
+                self.struct_paths.append(sname)
+            self.files[sname] = text
+            kwargs["sark_struct"] = sname
+            self.sv_cur = wire.parse_struct_file(text)["sv"]
         kwargs["boot_delay"] = [0.0, 0.01, 0.05][t.draw(3)]
         via_mc = bool(t.draw(3) == 0) or heal
         m = self.machines[ip]
@@ -489,6 +525,11 @@ class BootEngine(object):
         self.unknown_for = [0.0, 0.25, 1.0][t.draw(3)]
         self.seams = Seams()
         self.sv = sark_structs()["sv"]
+        self.sv_cur = self.sv
+        self.image_paths, self.struct_paths = [], []
+        with open(os.path.join(os.environ.get("VERIF_REPO", "/repo"), "rig",
+                               "boot", "sark.struct"), "rb") as f:
+            self.struct_text = f.read()
         self.caller_dict = None
         self.caller_dict_intended = None
         self.history_fields = set()
